@@ -1,7 +1,7 @@
 (* C18 - the ranking depends only on the geometry of the sensor rows.  Models: LA/Gram.v, LA/Ccqr.v. *)
 From Coq Require Import List Arith Lia QArith Qcanon.
 Import ListNotations.
-From PS Require Import LA.Sums LA.Gram LA.GramProofs LA.Ccqr LA.Invariance.
+From PS Require Import Sel.Greedy Sel.NormCalc Sel.RelabelAbs LA.Sums LA.Gram LA.GramProofs LA.SqrtCmp LA.Ccqr LA.Invariance LA.Relabel.
 Close Scope Qc_scope.
 Open Scope nat_scope.
 
@@ -28,9 +28,45 @@ Theorem C18_rank_scale_ccqr : forall m n k B cost c, (0 < c)%Qc ->
 Proof. exact rank_scale_ccqr. Qed.
 Print Assumptions C18_rank_scale_ccqr.
 
-(* the GQR constraint maps address costs and regions by sensor id through the running permutation (Sel/NormCalc.v takes
-   the candidate's id, never its position); sensor relabelling itself is decided by the metamorphic correspondence only
-   (partial: no equivariance theorem is proved) *)
+(* RELABELLING the sensors relabels the ranking in the same way, whenever the greedy choices are unique.
+   (a) Gram-matrix model: row (sg a) of the relabelled basis matrix is row a of B (tu = inverse of sg on 0..n-1);
+       QR, and CCQR with the costs relabelled alike. *)
+Theorem C18_relabel_qr : forall m n sg tu, (forall a, a < n -> sg a < n /\ tu (sg a) = a) -> (forall a, a < n -> tu a < n /\ sg (tu a) = a) ->
+  forall B k, k <= n -> (forall j, j < k -> LA.Relabel.unique_at Qc Qcleb qr_key n (gram m B) j) ->
+  firstn k (gram_greedy n k (gram m (relabelled tu B))) = map sg (firstn k (gram_greedy n k (gram m B))).
+Proof. exact relabel_qr. Qed.
+Print Assumptions C18_relabel_qr.
+
+Theorem C18_relabel_ccqr : forall m n sg tu, (forall a, a < n -> sg a < n /\ tu (sg a) = a) -> (forall a, a < n -> tu a < n /\ sg (tu a) = a) ->
+  forall B cost k, k <= n -> (forall j, j < k -> LA.Relabel.unique_at (Qc * Qc) sqrt_leb (ccqr_key cost) n (gram m B) j) ->
+  firstn k (ccqr_gram n k (fun x => cost (tu x)) (gram m (relabelled tu B))) = map sg (firstn k (ccqr_gram n k cost (gram m B))).
+Proof. exact relabel_ccqr. Qed.
+Print Assumptions C18_relabel_ccqr.
+
+(* (b) the pivoting loop of GQR with EVERY constraint option (and CCQR) over ANY residual-norm oracle: if the oracle is
+       relabelled alike (key2 (map sg history) (sg c) = key1 history c) and the region, the unconstrained ranking and the
+       costs are relabelled alike, the ranked sensors are the relabelled ones.  The constraint maps of _norm_calc.py
+       are carried along by the relabelling (first theorem). *)
+Theorem C18_constraint_maps_relabel : forall sg, (forall x y, sg x = sg y -> x = y) ->
+  forall o g j c, permit_of o (relabel_settings sg g) j (sg c) = permit_of o g j c.
+Proof. exact permit_relabel. Qed.
+Print Assumptions C18_constraint_maps_relabel.
+
+Theorem C18_relabel_gqr_every_option : forall sg, (forall x y, sg x = sg y -> x = y) ->
+  forall key1 key2, (forall rk c, key2 (map sg rk) (sg c) = key1 rk c) ->
+  forall o g n k, k <= n -> Permutation.Permutation (seq 0 n) (map sg (seq 0 n)) ->
+  (forall j, j < k -> Sel.RelabelAbs.unique_at (v_gqr key1 (permit_of o g)) n j) ->
+  fst (run (dv_gqr key2 (permit_of o (relabel_settings sg g))) k (init n)) = map sg (fst (run (dv_gqr key1 (permit_of o g)) k (init n))).
+Proof. exact relabel_gqr. Qed.
+Print Assumptions C18_relabel_gqr_every_option.
+
+Theorem C18_relabel_ccqr_loop : forall sg key1 key2, (forall rk c, key2 (map sg rk) (sg c) = key1 rk c) ->
+  forall cost1 cost2 n k, k <= n -> Permutation.Permutation (seq 0 n) (map sg (seq 0 n)) -> (forall c, cost2 (sg c) = cost1 c) ->
+  (forall j, j < k -> Sel.RelabelAbs.unique_at (v_ccqr key1 cost1) n j) ->
+  fst (run (dv_ccqr key2 cost2) k (init n)) = map sg (fst (run (dv_ccqr key1 cost1) k (init n))).
+Proof. exact Sel.RelabelAbs.relabel_ccqr. Qed.
+Print Assumptions C18_relabel_ccqr_loop.
+
 Example C18_example :
   let B := of_rows [[q 3 1; q (-1) 1]; [q 0 1; q 2 1]; [q 1 1; q 4 1]; [q 6 1; q (-2) 1]] in
   let Q := of_rows [[q 3 5; q 4 5]; [q (-4) 5; q 3 5]] in
@@ -39,3 +75,13 @@ Proof.
   split; [|vm_compute; reflexivity].
   intros u v Hu Hv. destruct u as [|[|u]]; destruct v as [|[|v]]; try lia; apply Qc_is_canon; vm_compute; reflexivity.
 Qed.
+
+(* non-vacuity of the relabelling theorem: the 4-sensor matrix above, relabelled by the cycle 0->2->3->1->0, has unique
+   greedy choices at both steps and its ranking is the relabelled one *)
+Example C18_relabel_example :
+  let B := of_rows [[q 3 1; q (-1) 1]; [q 0 1; q 2 1]; [q 1 1; q 4 1]; [q 6 1; q (-2) 1]] in
+  let sg := fun a => match a with 0 => 2 | 1 => 0 | 2 => 3 | 3 => 1 | _ => a end in
+  let tu := fun a => match a with 2 => 0 | 0 => 1 | 3 => 2 | 1 => 3 | _ => a end in
+  firstn 2 (gram_greedy 4 2 (gram 2 (relabelled tu B))) = map sg (firstn 2 (gram_greedy 4 2 (gram 2 B))) /\
+  firstn 2 (gram_greedy 4 2 (gram 2 B)) = [3; 2].
+Proof. split; vm_compute; reflexivity. Qed.
